@@ -28,8 +28,13 @@
     result is valid; `dropPoint_drop_applies_closed` (closed slice answered by the first pass, `dropGuard`, `TextStable`):
     the same for `tr.replace(p, p, slice)`; `dropPoint_drop_applies_partial` (open slices / second pass: through the Fitter,
     only validity of an applied step); `joinPoint_canJoin` (a join point is a position `can_join` approves, `dir ≠ 0`) and
-    `joinPoint_join_applies`.  Counterexamples `insertPoint_needs_guard_marks/_text`, `dropPoint_needs_guard`,
-    `joinPoint_needs_guard`.  Helpers: Proofs/InsertSuccess.lean, ResolveBoundary.lean, JoinPointSuccess.lean;
+    `joinPoint_join_applies`; `dropPoint_pass2_through_fitter` (an answer of `drop_point`'s second pass never fits
+    trivially: the edit is the Fitter's); `insertPoint_insert_succeeds_marked_partial` (a node with marks the parent does
+    not allow: the Fitter inserts it with those marks dropped — proved for that answer of the Fitter);
+    `canChangeType_setNodeMarkup_applies` / `…_leaf_applies` (`changeTypeGuard`: the new type accepts the node's children —
+    `can_change_type` does not look — and the parent allows the new marks).  Counterexamples
+    `insertPoint_needs_guard_marks/_text`, `dropPoint_needs_guard`, `joinPoint_needs_guard`, `canChangeType_needs_guard`.
+    Helpers: Proofs/InsertSuccess.lean, ResolveBoundary.lean, JoinPointSuccess.lean, RetypeSuccess.lean;
     guards in PM/InsertGuard.lean; tie: Driver/ExtIns.lean.
   Helpers: Proofs/Respects.lean, Proofs/StructEdit.lean, Proofs/Structure2.lean.
 -/
@@ -1701,6 +1706,79 @@ example : (match replaceStep insMarkSchema exDoc 0 0 ⟨[.elem 2 [] [⟨0, []⟩
 example : (match replaceStep exSchema exDoc 0 0 ⟨[.text [120] []], 0, 0⟩ with
      | .ok (some (.replace 0 0 sl' false)) => sl' == ⟨[.elem 2 [] [] [.text [120] []]], 0, 0⟩
      | _ => false) = true := by decide +kernel
+
+/-- **… and for a leaf node** (`set_node_markup` on a leaf or text node is `replace_with(pos, pos + node_size, new_node)`):
+    `can_change_type` approves ∧ `changeTypeGuard` (here: the new leaf type accepts empty content, the parent allows the
+    new node's marks) ∧ `pos` is the start of the node ⇒ `node_at(pos)` is that node, the request fits trivially —
+    `replace_step` is `ReplaceStep(pos, pos + size, Slice([new node], 0, 0))` — the step applies and the result is valid -/
+theorem canChangeType_setNodeMarkup_leaf_applies (S : Schema) (doc : Node) (pos : Nat) (ty : TypeId) (a : Attrs)
+    (ms : Marks) (r : RPos) (c : Node)
+    (hdoc : C01.IsElem doc) (hv : C01.Valid S doc) (hn : fnorm doc.kids = true)
+    (hr : doc.resolve pos = some r) (hto : r.textOffset = 0)
+    (hnode : r.parent.kids[r.index r.depth]? = some c) (hcl : c.isLeaf = true)
+    (hcan : canonicalMarks S ms = true)
+    (hg : changeTypeGuard S doc pos ty ms = true)
+    (hc : canChangeType S doc pos ty = some true) :
+    doc.nodeAt pos = .ok (some c) ∧
+    replaceStep S doc pos (pos + c.size) ⟨[.leaf ty a ms], 0, 0⟩
+      = .ok (some (.replace pos (pos + c.size) ⟨[.leaf ty a ms], 0, 0⟩ false)) ∧
+    ∃ doc', S.apply (.replace pos (pos + c.size) ⟨[.leaf ty a ms], 0, 0⟩ false) doc = .ok doc' ∧ C01.Valid S doc' := by
+  have R := resolve_resolved hr
+  simp only [changeTypeGuard, hr, hnode, Bool.and_eq_true] at hg
+  have hck : c.kids = [] := by cases c <;> simp_all [Node.isLeaf, Node.kids]
+  rw [hck] at hg
+  simp only [canChangeType, hr] at hc
+  cases doc with
+  | text s m => simp [C01.IsElem, Node.isLeaf] at hdoc
+  | leaf t a' m => simp [C01.IsElem, Node.isLeaf] at hdoc
+  | elem ty0 a0 m0 K =>
+    have hn' : fnorm K = true := by simpa [Node.kids] using hn
+    obtain ⟨tyP, aP, mP, ctx, eP, hl⟩ := Resolved.lvl hr hn' r.depth (Nat.le_refl _)
+    obtain ⟨hsplit, hidx⟩ := list_split_at _ _ _ hnode
+    have E := R.entry r.depth (Nat.le_refl _)
+    have hpe : (r.entry r.depth).pos = r.start r.depth + fsize (r.parent.kids.take (r.index r.depth)) := E.pos_eq
+    have hple := E.pos_le
+    have hpos : pos = r.start r.depth + fsize (r.parent.kids.take (r.index r.depth)) := by
+      unfold RPos.textOffset at hto
+      rw [R.pos_eq] at hto
+      omega
+    have hty : S.tyOf r.parent = tyP := by
+      show S.tyOf (r.node r.depth) = tyP
+      rw [eP]; rfl
+    have hplen : (r.parent.kids.take (r.index r.depth)).length = r.index r.depth := by
+      rw [List.length_take]; omega
+    have hl' : Lvl ty0 K (r.start r.depth) r.depth tyP
+        (r.parent.kids.take (r.index r.depth) ++ c :: r.parent.kids.drop (r.index r.depth + 1)) ctx := by
+      rw [← hsplit]; exact hl
+    have hnL := fnormKids_of_fnorm (hl'.norm hn')
+    simp only [fnormKids_append, Bool.and_eq_true] at hnL
+    have hcr : S.canReplaceWith tyP
+        (r.parent.kids.take (r.index r.depth) ++ c :: r.parent.kids.drop (r.index r.depth + 1))
+        (r.parent.kids.take (r.index r.depth)).length ((r.parent.kids.take (r.index r.depth)).length + 1)
+        (S.tyOf (.leaf ty a ms)) [] = some true := by
+      unfold Schema.nodeCanReplaceWith at hc
+      split at hc
+      · simp at hc
+      · rw [← hsplit, hplen, ← hty]; exact hc
+    have hg2 := hg.2
+    rw [hty] at hg2
+    obtain ⟨hft, hap⟩ := rechild_applies S ty0 a0 m0 K hv hn' c hl' (.leaf ty a ms) rfl rfl hcr hg2
+    rw [← hpos] at hft hap
+    have hnat : (Node.elem ty0 a0 m0 K).nodeAt pos = .ok (some c) := by
+      rw [hpos]
+      exact nodeAtKids_lvl hl' _ _ _ rfl hnL.1
+    refine ⟨hnat, replaceStep_trivial S _ _ _ _ (by simp [Slice.size]) hft, _, hap, ?_⟩
+    refine C01.apply_valid S _ _ _ hv ?_ hap
+    simp [C01.PayloadValid, openValid, rightOpenValid, Schema.checkNode, hcan, hg.1]
+
+/-- a non-trivial instance: content `(text image)*`, `doc(p("ab", image))`: the image (position 3) is re-created as an
+    image (a change of attributes or marks) -/
+example : canChangeType splitCexSchema splitCexDoc 3 3 = some true ∧
+    changeTypeGuard splitCexSchema splitCexDoc 3 3 [] = true := ⟨rfl, rfl⟩
+example : ∃ doc', splitCexSchema.apply (.replace 3 4 ⟨[.leaf 3 [] []], 0, 0⟩ false) splitCexDoc = .ok doc' ∧
+    C01.Valid splitCexSchema doc' :=
+  (canChangeType_setNodeMarkup_leaf_applies splitCexSchema splitCexDoc 3 3 [] [] ((splitCexDoc.resolve 3).get rfl)
+    (.leaf 3 [] []) rfl rfl rfl (Option.some_get _).symm rfl rfl rfl rfl rfl rfl).2.2
 
 /-! ### INSERT-END -/
 
